@@ -340,7 +340,8 @@ static int bytestream_bsend(struct xcm_socket *conn_s, const void *buf,
 	    if (errno != EAGAIN)
 		return -1;
 	    if (socket_wait(conn_s, XCM_SO_SENDABLE) < 0)
-		return -1;
+		/* bytes already accepted must be reported as such */
+		return sent > 0 ? sent : -1;
 	} else
 	    sent += rc;
     } while (sent < len);
@@ -375,8 +376,17 @@ int xcm_send(struct xcm_socket *__restrict conn_s,
 	else
 	    rc = msg_bsend(conn_s, buf, len);
 
-	if (rc >= 0 && socket_finish(conn_s) < 0)
-	    return -1;
+	if (rc >= 0) {
+	    /* The message (or the bytes) has been accepted at this
+	       point. Being interrupted by a signal must not turn that
+	       into a failed call, or a re-sending application would
+	       produce a duplicate. */
+	    int f_rc;
+	    while ((f_rc = socket_finish(conn_s)) < 0 && errno == EINTR)
+		;
+	    if (f_rc < 0)
+		return -1;
+	}
 
 	return rc;
     } else
